@@ -307,10 +307,10 @@ def client_checks(ctx):
                      real_shape, exp_shape)
         reqs, metas = [], []
         for args, kw in vectors(names, rng, ctx.pick(30, 200)):
-            args = [None if a is None else "v%d" % i for i, a in enumerate(args)]
-            kw = [(k, None if v is None else "k" + k) for k, v in kw]
-            reqs.append({"op": "argp.both", "forest": model_forest, "args": args,
-                         "kwargs": [{"k": k, "v": v} for k, v in kw], "strict": True})
+            args = [None if a is None else rng.choice(["v%d" % i, "v%d" % i, "", 0]) for i, a in enumerate(args)]
+            kw = [(k, None if v is None else rng.choice(["k" + k, "k" + k, "", 0])) for k, v in kw]
+            reqs.append({"op": "argp.both", "forest": model_forest, "args": [None if a is None else str(a) for a in args],
+                         "kwargs": [{"k": k, "v": None if v is None else str(v)} for k, v in kw], "strict": True})
             metas.append((args, kw))
         answers = ctx.driver.ask(reqs)
         for (args, kw), ans in zip(metas, answers):
@@ -368,8 +368,20 @@ def client_checks(ctx):
                     ctx.fail("call styles send different requests", dict(inp, split=cut),
                              env2.decode("utf-8"), real[1].decode("utf-8"))
                 ctx.case(None, False)
-            # unwrap disabled: one dict / factory object holding the same values
-            d = {nme: v for nme, v in zip(names, full)}
+            # every value that was passed is in the request, in schema order, with its text
+            try:
+                froot = xmlread.find1(xmlread.find1(xmlread.parse(real[1]), "Body"), "f")
+                sent = [(c["name"][1], c["text"]) for c in froot["children"]]
+            except Exception as e:
+                sent = "unreadable: %r" % (e,)
+            expect = [(nme, str(v)) for nme, v in zip(names, full) if v is not None]
+            got = [x for x in sent if isinstance(sent, list) and assign.get(x[0]) is not None]
+            if got != expect:
+                ctx.fail("request does not carry exactly the values passed, in schema order", inp, sent, expect)
+            # unwrap disabled: one dict / factory object holding the same values (any key order)
+            items = list(zip(names, full))
+            rng.shuffle(items)
+            d = dict(items)
             try:
                 env3 = wsdlkit.envelope_bytes(c_raw.service.f(d))
                 if not same_request(env3, real[1]):
